@@ -400,27 +400,53 @@ func (e *Engine) Prelude(sp *spec.File) (decls []string, quants []smt.Quant) {
 			Body: sx.MustParse1(fmt.Sprintf("(= (deser_%s (ser_%s a)) a)", name, name)),
 			Pats: [][]*sx.T{{sx.MustParse1(fmt.Sprintf("(ser_%s a)", name))}}})
 	}
-	if sp != nil {
-		var unames []string
-		for n := range sp.UFuns {
-			unames = append(unames, n)
+	{
+		// uninterpreted functions and folds of the module under verification and of the modules whose contracts it uses
+		files := []*spec.File{}
+		if sp != nil {
+			files = append(files, sp)
 		}
-		sort.Strings(unames)
-		for _, n := range unames {
-			u := sp.UFuns[n]
-			var ps []string
-			for _, p := range u.Params {
-				ps = append(ps, specSort(p.Type))
+		var pk []string
+		for k := range e.Specs {
+			pk = append(pk, k)
+		}
+		sort.Strings(pk)
+		for _, k := range pk {
+			if e.Specs[k] != sp {
+				files = append(files, e.Specs[k])
 			}
-			decls = append(decls, fmt.Sprintf("(declare-fun uf_%s (%s) %s)", n, strings.Join(ps, " "), specSort(u.Result)))
 		}
-		names := make([]string, 0, len(sp.Folds))
-		for n := range sp.Folds {
-			names = append(names, n)
-		}
-		sort.Strings(names)
-		for _, n := range names {
-			decls = append(decls, fmt.Sprintf("(declare-fun fold_%s (Store) Int)", n))
+		declared := map[string]bool{}
+		for _, f := range files {
+			var unames []string
+			for n := range f.UFuns {
+				unames = append(unames, n)
+			}
+			sort.Strings(unames)
+			for _, n := range unames {
+				if declared["uf_"+n] {
+					continue
+				}
+				declared["uf_"+n] = true
+				u := f.UFuns[n]
+				var ps []string
+				for _, p := range u.Params {
+					ps = append(ps, specSort(p.Type))
+				}
+				decls = append(decls, fmt.Sprintf("(declare-fun uf_%s (%s) %s)", n, strings.Join(ps, " "), specSort(u.Result)))
+			}
+			names := make([]string, 0, len(f.Folds))
+			for n := range f.Folds {
+				names = append(names, n)
+			}
+			sort.Strings(names)
+			for _, n := range names {
+				if declared["fold_"+n] {
+					continue
+				}
+				declared["fold_"+n] = true
+				decls = append(decls, fmt.Sprintf("(declare-fun fold_%s (Store) Int)", n))
+			}
 		}
 	}
 	if _, ok := e.extraFn["uf:native_std_StringSplit"]; ok {
@@ -936,7 +962,12 @@ func (e *Engine) eval(fr *frame, st *State, x ast.Expr, k cont) {
 		k(st, unit())
 	case *ast.TypeAssertExpr:
 		e.eval(fr, st, x.X, func(st *State, v Val) {
-			k(st, e.convert(v, e.typeOf(info.Types[x.Type].Type)))
+			r := e.convert(v, e.typeOf(info.Types[x.Type].Type))
+			if v.Deser != nil && r.Ty.K == spec.KList {
+				// a deserialised array is a well-formed, non-Null list (a fact about this value)
+				st.facts = append(st.facts, sx.Not(sx.App(r.Ty.Name+"_null", r.T)), sx.App(">=", lenOf(r), sx.Int(0)))
+			}
+			k(st, r)
 		})
 	case *ast.CallExpr:
 		e.call(fr, st, x, func(st *State, rets []Val) {
